@@ -95,4 +95,220 @@ func (g *gen) ibbTables() {
 		}
 		g.p("Definition %s : N := %d%%N.\n", c.coqName, v)
 	}
+	g.ibbControlFacts(f)
+}
+
+// ---- statement-order facts the C15 model relies on ----
+
+func ibbFunc(f *ast.File, recv, name string) *ast.FuncDecl {
+	for _, d := range f.Decls {
+		fd, ok := d.(*ast.FuncDecl)
+		if !ok || fd.Name.Name != name || fd.Body == nil {
+			continue
+		}
+		if recv == "" {
+			if fd.Recv == nil {
+				return fd
+			}
+			continue
+		}
+		if fd.Recv == nil || len(fd.Recv.List) != 1 {
+			continue
+		}
+		t := fd.Recv.List[0].Type
+		if st, ok := t.(*ast.StarExpr); ok {
+			t = st.X
+		}
+		if id, ok := t.(*ast.Ident); ok && id.Name == recv {
+			return fd
+		}
+	}
+	return nil
+}
+
+// ibbSel reports whether e is the selector chain a.b.c... given as names.
+func ibbSel(e ast.Expr, names ...string) bool {
+	for i := len(names) - 1; i > 0; i-- {
+		se, ok := e.(*ast.SelectorExpr)
+		if !ok || se.Sel.Name != names[i] {
+			return false
+		}
+		e = se.X
+	}
+	id, ok := e.(*ast.Ident)
+	return ok && id.Name == names[0]
+}
+
+func ibbContainsCall(n ast.Node, names ...string) bool {
+	found := false
+	ast.Inspect(n, func(x ast.Node) bool {
+		if c, ok := x.(*ast.CallExpr); ok && ibbSel(c.Fun, names...) {
+			found = true
+		}
+		return !found
+	})
+	return found
+}
+
+func ibbBool(b bool) string {
+	if b {
+		return "true"
+	}
+	return "false"
+}
+
+func (g *gen) ibbControlFacts(ibbFile *ast.File) {
+	// handlePayload: after the append to readBuf every successful way out of the
+	// function passes the wake-up (the select that sends on conn.readReady),
+	// which is a top-level statement of the function: not under a condition on
+	// the carrier or anything else.
+	appendAt, notifyAt := -1, -1
+	succ, errs := 0, 0
+	if fd := ibbFunc(ibbFile, "", "handlePayload"); fd != nil {
+		for i, st := range fd.Body.List {
+			if appendAt < 0 && ibbContainsCall(st, "conn", "readBuf", "Write") {
+				appendAt = i
+			}
+			if sel, ok := st.(*ast.SelectStmt); ok && notifyAt < 0 {
+				for _, cc := range sel.Body.List {
+					if c, ok := cc.(*ast.CommClause); ok {
+						if snd, ok := c.Comm.(*ast.SendStmt); ok && ibbSel(snd.Chan, "conn", "readReady") {
+							notifyAt = i
+						}
+					}
+				}
+			}
+		}
+		if appendAt >= 0 && notifyAt > appendAt {
+			for _, st := range fd.Body.List[appendAt+1 : notifyAt] {
+				ast.Inspect(st, func(x ast.Node) bool {
+					if _, ok := x.(*ast.FuncLit); ok {
+						return false
+					}
+					if r, ok := x.(*ast.ReturnStmt); ok {
+						if len(r.Results) == 1 {
+							if id, ok := r.Results[0].(*ast.Ident); ok && id.Name == "nil" {
+								succ++
+								return true
+							}
+						}
+						errs++
+					}
+					return true
+				})
+			}
+		}
+	} else {
+		g.errs = append(g.errs, "ibb/ibb.go: func handlePayload not found")
+	}
+	g.p("\n(* handlePayload: the wake-up of a pending Read is an unconditional top-level statement\n   after the append to the read buffer; returns between the two, by kind *)\n")
+	g.p("Definition ibb_payload_notify_unconditional : bool := %s.\n", ibbBool(appendAt >= 0 && notifyAt > appendAt))
+	g.p("Definition ibb_payload_success_returns_before_notify : nat := %d.\n", succ)
+	g.p("Definition ibb_payload_error_returns_before_notify : nat := %d.\n", errs)
+
+	// rmStream removes the entry only when it still refers to the connection
+	// being closed.
+	guarded := false
+	if fd := ibbFunc(ibbFile, "Handler", "rmStream"); fd != nil {
+		deletes, guardedDeletes := 0, 0
+		ast.Inspect(fd.Body, func(x ast.Node) bool {
+			if c, ok := x.(*ast.CallExpr); ok {
+				if id, ok := c.Fun.(*ast.Ident); ok && id.Name == "delete" {
+					deletes++
+				}
+			}
+			if ifs, ok := x.(*ast.IfStmt); ok && ifs.Init == nil && ifs.Else == nil {
+				if be, ok := ifs.Cond.(*ast.BinaryExpr); ok && be.Op == token.EQL {
+					isEntry := func(e ast.Expr) bool {
+						ie, ok := e.(*ast.IndexExpr)
+						return ok && ibbSel(ie.X, "h", "streams")
+					}
+					isParam := func(e ast.Expr) bool {
+						id, ok := e.(*ast.Ident)
+						if !ok || fd.Type.Params == nil {
+							return false
+						}
+						for _, p := range fd.Type.Params.List {
+							for _, n := range p.Names {
+								if n.Name == id.Name {
+									if _, ptr := p.Type.(*ast.StarExpr); ptr {
+										return true
+									}
+								}
+							}
+						}
+						return false
+					}
+					if (isEntry(be.X) && isParam(be.Y)) || (isEntry(be.Y) && isParam(be.X)) {
+						ast.Inspect(ifs.Body, func(y ast.Node) bool {
+							if c, ok := y.(*ast.CallExpr); ok {
+								if id, ok := c.Fun.(*ast.Ident); ok && id.Name == "delete" {
+									guardedDeletes++
+								}
+							}
+							return true
+						})
+					}
+				}
+			}
+			return true
+		})
+		guarded = deletes > 0 && deletes == guardedDeletes
+	} else {
+		g.errs = append(g.errs, "ibb/ibb.go: method Handler.rmStream not found")
+	}
+	g.p("\n(* Handler.rmStream deletes the entry only under `if h.streams[sid] == conn` *)\n")
+	g.p("Definition ibb_rmstream_guarded : bool := %s.\n", ibbBool(guarded))
+
+	// Close and closeNoNotify reach closeRead (hence rmStream) only after
+	// markClosed has succeeded: a second Close on a closed connection returns
+	// before it.
+	cf := g.parse("ibb/conn.go")
+	after := func(name string) bool {
+		if cf == nil {
+			return false
+		}
+		fd := ibbFunc(cf, "Conn", name)
+		if fd == nil {
+			g.errs = append(g.errs, "ibb/conn.go: method Conn."+name+" not found")
+			return false
+		}
+		mark, first := -1, -1
+		for i, st := range fd.Body.List {
+			if ifs, ok := st.(*ast.IfStmt); ok && mark < 0 && ifs.Init == nil {
+				if c, ok := ifs.Cond.(*ast.CallExpr); ok && ibbSel(c.Fun, "c", "markClosed") {
+					ret := false
+					for _, b := range ifs.Body.List {
+						if _, ok := b.(*ast.ReturnStmt); ok {
+							ret = true
+						}
+					}
+					if ret {
+						mark = i
+					}
+				}
+			}
+			if first < 0 && (ibbContainsCall(st, "c", "closeRead") || ibbContainsCall(st, "c", "handler", "rmStream")) {
+				first = i
+			}
+		}
+		return mark >= 0 && first > mark
+	}
+	g.p("\n(* Close / closeNoNotify call closeRead only after `if c.markClosed() { return }` *)\n")
+	g.p("Definition ibb_close_closeread_after_markclosed : bool := %s.\n", ibbBool(after("Close")))
+	g.p("Definition ibb_closenonotify_closeread_after_markclosed : bool := %s.\n", ibbBool(after("closeNoNotify")))
+	callers := 0
+	if cf != nil {
+		for _, d := range cf.Decls {
+			if fd, ok := d.(*ast.FuncDecl); ok && fd.Body != nil && fd.Name.Name != "closeRead" {
+				ast.Inspect(fd.Body, func(x ast.Node) bool {
+					if c, ok := x.(*ast.CallExpr); ok && (ibbSel(c.Fun, "c", "closeRead") || ibbSel(c.Fun, "c", "handler", "rmStream")) {
+						callers++
+					}
+					return true
+				})
+			}
+		}
+	}
+	g.p("Definition ibb_closeread_call_sites : nat := %d.\n", callers)
 }
